@@ -53,6 +53,8 @@ inductive Val
   | xmlElem (t : T)
   | list (typename : Str) (items : ValS)
   | enumeration (v : Option Int) (string name : Str)
+  | variant (inner : Val)
+  | qname (ns : Nat) (name : Str)
   | pyNone                                     -- the parser returned Python `None`
 inductive ValS
   | nil
@@ -112,7 +114,7 @@ def tListOf : Str := "ListOf".toList
 -- canonical layout of a data tree (one blank before each attribute)
 mutual
 def layoutT : T → X
-  | .node tag attrs text kids => .node tag (attrs.map fun a => ⟨[' '], a.1, a.2⟩) [] text (layoutTS kids)
+  | .node tag attrs text kids => .node tag (attrs.map fun a => ⟨[' '], a.1, a.2⟩) [] false text (layoutTS kids)
 def layoutTS : TS → XS
   | .nil => .nil
   | .cons t ts => .cons (layoutT t) (layoutTS ts)
@@ -147,6 +149,8 @@ def encodeText : Val → Bool → Str
   | .list tn items, b =>
     '<' :: (tListOf ++ (tn ++ (' ' :: (xmlnsAttr b ++ ('>' :: (encodeTexts items ++
       ('<' :: '/' :: (tListOf ++ (tn ++ ['>'])))))))))
+  | .variant inner, b => wrap "Variant".toList b (wrap "Value".toList false (encodeText inner b))
+  | .qname ns name, b => wrap "QualifiedName".toList b (wrap "NamespaceIndex".toList false (showNat ns) ++ wrap "Name".toList false name)
   | .pyNone, _ => []
 def encodeTexts : ValS → Str
   | .nil => []
